@@ -22,7 +22,7 @@ LEVEL = "exploration"
 TECHNIQUE = "generated session histories (Hypothesis) saved and restored through external state adapters; round-trip oracle on session state and served results"
 RULE = ("cases = (start in {0,1,2.5,8,9.5,98}, dt in {1,0.5,0.25,0.1}, one or two SD scenario managers in the session, begin-session with or without settings, "
         "history of run-step / run-steps k / a new begin-session / save-state requests, each step with settings in {no body, {}, constants, points} per manager, "
-        "compress on/off, adapter kind {file, memory}, restore path {instance, server}); session_state (scenario managers, scenarios, "
+        "compress on/off, adapter kind {file, memory}, a session-less sibling instance, restore path {instance, new server, same server after end-session / new begin-session}); session_state (scenario managers, scenarios, "
         "equations, step, starttime, stoptime, dt, settings_log, results_log) and the bodies of session-results / flat-session-results "
         "before the save must equal those after the load. non-trivial = start != 1 or dt != 1, or a step without settings / with {}; "
         "distinct by case")
